@@ -193,6 +193,9 @@ def check(op, c, V, st, i):
             if (state == 2 and not has_on) or (state == 1 and not has_off) or (state == 0 and (has_on or has_off)):
                 V.append(dict(sig='C16 pm_node_status disagrees with the reply', at=i, state=state, lines=[l.decode('latin1') for l in lines][:6]))
         if api == 'nodes' and rc == 0:
+            ma = re.search(r'after=(\d+) second=(\d+)', c)
+            if ma and int(ma.group(1)) != 0:
+                V.append(dict(sig='C16 node iteration hands out nodes again after it reported the end', at=i, extra_nodes=int(ma.group(1))))
             got = re.search(r'nodes=(\S+)', c).group(1)
             got = [] if got == '-' else [bytes.fromhex(x) for x in got.split(',')]
             want_nodes = [l[4:].split()[0] for l in lines if l.startswith(b'307 ') and l[4:].split()]
